@@ -125,7 +125,17 @@ def same_outcome(native, expected):
         if 'panic' in expected: return isinstance(native, dict) and ('panic' in native or 'crash' in native)
         if 'unbounded' in expected: return isinstance(native, dict) and ('timeout' in native or 'crash' in native)
         return False
+    if isinstance(expected, list) and expected and expected[0] == 'err':
+        # Both must be errors.  The text is not compared strictly: which of several independent errors is reported
+        # first (and the `while processing X` context) depends on the hash-map order of the native run.
+        if isinstance(native, list) and native and native[0] == 'err':
+            if not _same(native, expected): ERR_TEXT_DIFFS[0] += 1
+            return True
+        return False
     return _same(native, expected)
+
+
+ERR_TEXT_DIFFS = [0]
 
 
 def _same(n, e):
@@ -315,6 +325,7 @@ class Run:
                 'std_models_used': sorted(self.modelled),
                 'known_findings_hit': {k: v['count'] for k, v in self.known.items()},
                 'model_mismatches': len(self.mismatches),
+                'error_text_differences_native_vs_interpreted (order-dependent wording, tolerated)': ERR_TEXT_DIFFS[0],
                 'leaves_without_witness_model (solver timeout)': getattr(self, 'unvalidated', 0),
                 'inconclusive': [u.get('unsupported', '')[:300] for u in self.unsupported[:10]],
             },
